@@ -165,7 +165,9 @@ RULE = ('every descriptor the real loader exports (ESTA + manufacturer, GET/SET 
         'lengths 0-255 (quick: every distinct descriptor shape x all lengths, every descriptor x its boundary '
         'lengths; thorough: every descriptor x every length) x {zeros, 0xff, ramp, random, NULs at the '
         'first/middle/last byte of every string field, boolean bytes 0/1/2/255} + synthetic descriptors '
-        '(nested groups, little endian, limited groups, ill-formed ones); non-trivial = payload accepted and '
+        '(nested groups, little endian, limited groups, ill-formed ones); every accepted case is re-encoded twice: '
+        'by a fresh MessageSerializer and by ONE serializer shared by the whole run whose buffer was just '
+        'filled with 0xff by another message (key shared), both must equal the model; non-trivial = payload accepted and '
         're-encoded to a non-empty byte string; distinct = distinct model output line')
 ASSUMPTIONS = ['operator new does not fail',
                'payloads are exact-size heap copies so ASan reports any read past the supplied length',
@@ -173,17 +175,22 @@ ASSUMPTIONS = ['operator new does not fail',
 TRUSTED = ['modelled rather than verified: Descriptor.h/.cpp size functions, DescriptorConsistencyChecker, '
            'VariableFieldSizeCalculator::CalculateFieldSize, MessageDeserializer (all Visit methods, CheckForData), '
            'MessageSerializer (all Visit methods as byte lists; CheckForFreeSpace / buffer growth as size bookkeeping '
-           'of the code corrected by fixes/01, compared through the harness key cap = m_buffer_size), ShortenString',
+           'of the code corrected by fixes/01, compared through the harness key cap = m_buffer_size; a reused '
+           'serializer as a buffer with arbitrary stale contents, c14_serialize_stateless), ShortenString',
+           'that the C++ MessageSerializer object carries no state from one message to the next is validated by '
+           'the reuse harness (long-lived serializer dirtied with 0xff before every case), not proved',
            'props/C14/exporter.cpp + c14_desc.h print the descriptors the real loader built as Gallina terms '
            '(coq/PidDescs.v, regenerated every run); the harness prints the descriptor it used (key d) and the '
            'model prints the exported one, so a mis-export shows up as a divergence',
            'PidStoreLoader / protobuf text parsing are not modelled: the real loader runs on every check and its '
            'output (all 1368 descriptors) is compared with an independent Python reading of data/rdm/*.proto '
            '(prop.py _compare_with_data_files, mirroring the uint8_t/uint16_t/int16_t truncation of sizes); '
-           'GroupSizeCalculator, PidStoreHelper, StringMessageBuilder and the message printers are outside the '
-           'decode/re-encode path and not covered']
-SPEC_KEYS = ['r', 'ser', 'same', 'again', 'cc', 'specfail', 'ndesc', 'npids', 'load']
-# not property-determined (internal): d (descriptor text), cs (calculator state), m (message text), cap (m_buffer_size)
+           'GroupSizeCalculator is modelled (gcalc) and compared on every case with the payload length as token '
+           'count (key gs, internal); PidStoreHelper, StringMessageBuilder and the message printers are outside '
+           'the decode/re-encode path and not covered']
+SPEC_KEYS = ['r', 'ser', 'same', 'again', 'shared', 'cc', 'specfail', 'ndesc', 'npids', 'load']
+# not property-determined (internal): d (descriptor text), cs (calculator state), gs (GroupSizeCalculator state),
+# m (message text), cap (m_buffer_size)
 INTERNAL_KEYS = []
 
 # ---------------------------------------------------------------- descriptor text -> layout (aiming only)
